@@ -3,6 +3,8 @@
 from __future__ import annotations
 
 import ast
+import copy
+import os
 from typing import Dict, Iterable, List, Optional, Sequence, Set, Tuple, Union
 
 from . import astutil as A
@@ -18,6 +20,8 @@ class Program:
         self._cfgs: Dict[str, CFG] = {}
         self.stats = {"calls": 0, "resolved": 0, "by_name": 0, "external": 0, "unresolved": 0}
         self._inline_string_constants()
+        if not os.environ.get("VT_NO_HELPER_INLINING"):
+            self._inline_trivial_helpers()
         self._normalise_call_keywords()
 
     # ---------------------------------------------------------------- normalisation
@@ -75,6 +79,241 @@ class Program:
                                 done = True
                 if done:
                     ix._parents[id(new)] = par
+
+    # names the rules know functions by: a helper the rules talk about is analysed where it is
+    _ANCHORED: Optional[set] = None
+
+    @classmethod
+    def _anchored_names(cls) -> set:
+        if cls._ANCHORED is None:
+            import re
+            names: set = set()
+            base = os.path.dirname(os.path.dirname(os.path.abspath(__file__)))
+            for sub in ("rules", "core"):
+                d = os.path.join(base, sub)
+                for fn in sorted(os.listdir(d)):
+                    if not fn.endswith(".py"):
+                        continue
+                    try:
+                        tree = ast.parse(open(os.path.join(d, fn), encoding="utf-8").read())
+                    except (OSError, SyntaxError):
+                        continue
+                    for n in ast.walk(tree):
+                        if isinstance(n, ast.Constant) and isinstance(n.value, str):
+                            names.update(re.findall(r"[A-Za-z_][A-Za-z0-9_]*", n.value))
+            cls._ANCHORED = names
+        return cls._ANCHORED
+
+    def _inline_trivial_helpers(self) -> None:
+        """Extract-function refactoring read backwards: a call of a private-to-the-analysis helper - a function or method
+        of the same module that no rule refers to by name, whose body is straight-line (`x = E` of fresh locals used once,
+        then `return E`) - is replaced by the returned expression with the arguments substituted.  The helper itself
+        stays in the index and is still analysed as a function.  So moving an expression into a helper (or back) does
+        not change what any rule sees at the call site."""
+        ix = self.ix
+        anchored = self._anchored_names()
+
+        def summary(f: FuncInfo):
+            """(param names, defaults, expression) or None"""
+            node = f.node
+            if isinstance(node, ast.Lambda) or isinstance(node, ast.AsyncFunctionDef) or f.name in anchored or f.parent is not None:
+                return None
+            decs = [_dec(d) for d in node.decorator_list]
+            if any(d not in ("staticmethod",) for d in decs):
+                return None
+            a = node.args
+            if a.vararg or a.kwarg or a.posonlyargs or a.kwonlyargs:
+                return None
+            params = [x.arg for x in a.args]
+            defaults = {}
+            for x, d in zip(a.args[len(a.args) - len(a.defaults):], a.defaults):
+                if not isinstance(d, ast.Constant):
+                    return None
+                defaults[x.arg] = d
+            body = [s_ for s_ in node.body if not (isinstance(s_, ast.Expr) and isinstance(s_.value, ast.Constant))]
+            if not body or not isinstance(body[-1], ast.Return) or body[-1].value is None:
+                return None
+            expr = body[-1].value
+            local_vals = {}
+            for s_ in body[:-1]:
+                if not (isinstance(s_, ast.Assign) and len(s_.targets) == 1 and isinstance(s_.targets[0], ast.Name)):
+                    return None
+                nm = s_.targets[0].id
+                if nm in params or nm in local_vals:
+                    return None
+                local_vals[nm] = s_.value
+            whole = list(local_vals.values()) + [expr]
+            for e in whole:
+                for n in ast.walk(e):
+                    if isinstance(n, (ast.Lambda, ast.NamedExpr, ast.Yield, ast.YieldFrom, ast.Await)):
+                        return None
+                    if isinstance(n, ast.Name) and n.id in ("super", "__class__", "locals", "vars"):
+                        return None
+                    if isinstance(n, ast.Name) and isinstance(n.ctx, (ast.Store, ast.Del)) and (n.id in params or n.id in local_vals):
+                        return None
+            # fold the locals (each read exactly once, after its definition)
+            order = list(local_vals)
+            for i, nm in enumerate(order):
+                uses = sum(1 for e in whole[i + 1:] for n in ast.walk(e) if isinstance(n, ast.Name) and n.id == nm)
+                if uses != 1 or any(isinstance(n, ast.Name) and n.id == nm for e in whole[:i + 1] for n in ast.walk(e)):
+                    return None
+            bound_inside = {n.id for e in whole for n in ast.walk(e) if isinstance(n, ast.Name) and isinstance(n.ctx, ast.Store)}
+            return params, defaults, local_vals, expr, bound_inside
+
+        def substitute(expr, mapping):
+            class Sub(ast.NodeTransformer):
+                def visit_Name(self, n):
+                    if isinstance(n.ctx, ast.Load) and n.id in mapping:
+                        return copy.deepcopy(mapping[n.id])
+                    return n
+            return Sub().visit(copy.deepcopy(expr))
+
+        def set_parents(node, parent):
+            ix._parents[id(node)] = parent
+            for ch in ast.iter_child_nodes(node):
+                set_parents(ch, node)
+
+        def overridden(f: FuncInfo) -> bool:
+            if f.cls is None:
+                return False
+            fam = [c for c in ix.subclasses(f.cls.qname)] + ix.mro(f.cls)
+            return any(c is not f.cls and f.name in {m.name for m in ix.functions.values() if m.cls is c} for c in fam)
+
+        sums = {}
+        changed_any = False
+        for _round in range(4):
+            changed = False
+            for fi in list(ix.functions.values()):
+                if isinstance(fi.node, ast.Lambda):
+                    continue
+                for c in list(A.body_nodes(fi.node)):
+                    if not isinstance(c, ast.Call) or any(isinstance(a_, ast.Starred) for a_ in c.args) or any(k.arg is None for k in c.keywords):
+                        continue
+                    fn = c.func
+                    if isinstance(fn, ast.Name):
+                        nm = fn.id
+                    elif isinstance(fn, ast.Attribute) and isinstance(fn.value, ast.Name) and fn.value.id in ("self", "cls"):
+                        nm = fn.attr
+                    else:
+                        continue
+                    if nm in anchored:
+                        continue
+                    try:
+                        ts, how = self.resolve_callee(fi, fn)
+                    except Exception:
+                        continue
+                    if how != "exact" or len(ts) != 1 or not isinstance(ts[0], FuncInfo):
+                        continue
+                    t = ts[0]
+                    if t is fi or t.module is not fi.module or t.name != nm:
+                        continue
+                    if t.qname not in sums:
+                        sums[t.qname] = summary(t) if not overridden(t) else None
+                    sm = sums[t.qname]
+                    if sm is None:
+                        continue
+                    params, defaults, local_vals, expr, bound_inside = sm
+                    mapping = {}
+                    is_static = any(_dec(d) == "staticmethod" for d in t.node.decorator_list)
+                    ps = list(params)
+                    if t.cls is not None and not is_static:
+                        if not isinstance(fn, ast.Attribute) or not ps:
+                            continue
+                        mapping[ps[0]] = fn.value
+                        ps = ps[1:]
+                    elif t.cls is not None and isinstance(fn, ast.Name):
+                        continue
+                    if len(c.args) > len(ps):
+                        continue
+                    for p_, a_ in zip(ps, c.args):
+                        mapping[p_] = a_
+                    ok = True
+                    for k in c.keywords:
+                        if k.arg not in ps or k.arg in mapping:
+                            ok = False
+                            break
+                        mapping[k.arg] = k.value
+                    for p_ in ps:
+                        if p_ not in mapping:
+                            if p_ in defaults:
+                                mapping[p_] = defaults[p_]
+                            else:
+                                ok = False
+                    if not ok:
+                        continue
+                    arg_names = {n.id for v in mapping.values() for n in ast.walk(v) if isinstance(n, ast.Name)}
+                    if arg_names & bound_inside:
+                        continue
+                    # a complex argument read more than once would be duplicated: only names / attributes / constants then
+                    simple = lambda v: isinstance(v, (ast.Name, ast.Constant)) or (isinstance(v, ast.Attribute) and simple(v.value))
+                    reads = {}
+                    for e in list(local_vals.values()) + [expr]:
+                        for n in ast.walk(e):
+                            if isinstance(n, ast.Name) and n.id in mapping:
+                                reads[n.id] = reads.get(n.id, 0) + 1
+                    if any(cnt > 1 and not simple(mapping[p_]) for p_, cnt in reads.items()):
+                        continue
+                    full = dict(mapping)
+                    for lnm, lv in local_vals.items():
+                        full[lnm] = substitute(lv, full)
+                    new = substitute(expr, full)
+                    for n in ast.walk(new):
+                        if not hasattr(n, "lineno") or True:
+                            try:
+                                ast.copy_location(n, c)
+                            except Exception:
+                                pass
+                    new._inlined_from = t.qname
+                    par = ix.parent(c)
+                    if par is None:
+                        continue
+                    done = False
+                    for fld, old in ast.iter_fields(par):
+                        if old is c:
+                            setattr(par, fld, new)
+                            done = True
+                        elif isinstance(old, list):
+                            for i, x in enumerate(old):
+                                if x is c:
+                                    old[i] = new
+                                    done = True
+                    if done:
+                        set_parents(new, par)
+                        changed = changed_any = True
+                        self.inlined = getattr(self, "inlined", [])
+                        self.inlined.append((fi.qname, t.qname))
+            self._cfgs.clear()
+            if not changed:
+                break
+        if changed_any:
+            self._cfgs.clear()
+            # a private helper that is no longer referenced anywhere is dead code to the analysis: what it computes is
+            # analysed at its former call sites, in their context
+            for q in sorted({t for _, t in self.inlined}):
+                t = ix.functions.get(q)
+                if t is None or not t.name.startswith("_") or t.name.startswith("__"):
+                    continue
+                mi = t.module
+                refs = 0
+                for n in ast.walk(mi.tree):
+                    if n is t.node:
+                        continue
+                    if (isinstance(n, ast.Name) and n.id == t.name) or (isinstance(n, ast.Attribute) and n.attr == t.name):
+                        refs += 1
+                    elif isinstance(n, ast.Constant) and n.value == t.name:
+                        refs += 1
+                if refs or any(isinstance(n, ast.Name) and n.id == t.name for n in ast.walk(t.node)):
+                    continue
+                if any(t.name in (om.imports.get(k, "").rsplit(".", 1)[-1] for k in om.imports) for om in ix.modules.values() if om is not mi):
+                    continue
+                par = ix.parent(t.node)
+                body = getattr(par, "body", None)
+                if isinstance(body, list) and t.node in body and len(body) > 1:
+                    body.remove(t.node)
+                    del ix.functions[q]
+                    for k in [k for k, f in ix.functions.items() if f.parent is t]:
+                        del ix.functions[k]
+                    self.removed_helpers = getattr(self, "removed_helpers", []) + [q]
 
     def _normalise_call_keywords(self) -> None:
         """f(a, y=b) and f(a, b) are the same call when y is f's second parameter.  For calls whose callee resolves
